@@ -1,5 +1,6 @@
 """C16 - deterministic evaluation order and first-failure reporting."""
 import ckprop
+import directed
 import genck
 import implck
 import copy
@@ -25,7 +26,12 @@ NEIGHBOURS = [{"from": "C18", "limit": 400, "why": "the order of inherited and o
               {"from": "C07", "limit": 500, "tags": ["special", "tick-probes"], "why": "a violated condition is re-evaluated exactly once for its message: every operand with an effect runs twice in all"}]
 
 
+run_directed = directed.run
+
+
 def cases(tier, rng):
+    for c in directed.diamond_orders_cases():
+        yield "directed-diamond-orders", c
     thorough = tier == "thorough"
     for c in genck.exhaustive_pre(genck.KINDS if thorough else ["function", "method", "class", "propset"], [False, True], 3, 2,
                                   with_post=(False, True), with_snap=(False, True)):
